@@ -111,7 +111,7 @@ Record task := mkTask {
   k_phase : Z;             (* submission task: 0 main begun, 1 queued, 2 running,
                               3 error recorded, 4 waited for all futures, 5 announced *)
   k_permit : Z;            (* -1 none yet, otherwise the semaphore it holds *)
-  k_assoc : bool;          (* currently in the coordinator's associated futures *)
+  k_assoc : Z;             (* coordinator's associated futures: 0 not yet, 1 associated, 2 removed *)
   k_released : bool        (* permit given back *)
 }.
 
@@ -292,7 +292,7 @@ Definition with_phase (x : task) (p : Z) : task :=
 Definition with_permit (x : task) (p : Z) : task :=
   mkTask (k_id x) (k_t x) (k_stage x) (k_parent x) (k_final x) (k_deps x) (k_kind x) (k_st x)
          (k_ran_main x) (k_main_ok x) (k_skipped x) (k_phase x) p (k_assoc x) (k_released x).
-Definition with_assoc (x : task) (b : bool) : task :=
+Definition with_assoc (x : task) (b : Z) : task :=
   mkTask (k_id x) (k_t x) (k_stage x) (k_parent x) (k_final x) (k_deps x) (k_kind x) (k_st x)
          (k_ran_main x) (k_main_ok x) (k_skipped x) (k_phase x) (k_permit x) b (k_released x).
 Definition with_released (x : task) : task :=
@@ -355,10 +355,16 @@ Definition ann_del (a : actor) (l : list (actor * Z)) : list (actor * Z) :=
 Definition past_main (v : tst) : bool :=
   match v with TPost | TAnn | TAnnDone | TEnded => true | _ => false end.
 
-(** an inline child of [a] that has not ended: [a] is busy executing it *)
+(** [a] is in the middle of something it must finish first: executing an inline
+    child (called synchronously), or inside coordinator.submit() for a child
+    (permit not yet taken / not yet queued / not yet added to the associated
+    futures) *)
 Definition busy (s : state) (a : actor) : bool :=
-  existsb (fun x => stage_eqb (k_stage x) SInline && (k_parent x =? a) &&
-                    negb (tst_eqb (k_st x) TEnded) && negb (tst_eqb (k_st x) TQueued))
+  existsb (fun x => (k_parent x =? a) &&
+             (if stage_eqb (k_stage x) SInline
+              then negb (tst_eqb (k_st x) TEnded) && negb (tst_eqb (k_st x) TQueued)
+              else negb (k_kind x =? KSubmission) &&
+                   (tst_eqb (k_st x) TSubmitting || (k_assoc x =? 0))))
           (tasks s).
 
 Definition task_in (s : state) (k : Z) (v : tst) : bool :=
@@ -382,7 +388,7 @@ Definition in_callback (s : state) (a : actor) (t : Z) : bool :=
 
 Definition dep_done (s : state) (d : Z) : bool := task_in s d TEnded.
 Definition all_assoc_done (s : state) (t : Z) : bool :=
-  forallb (fun x => negb ((k_t x =? t) && k_assoc x) || tst_eqb (k_st x) TEnded) (tasks s).
+  forallb (fun x => negb ((k_t x =? t) && (k_assoc x =? 1)) || tst_eqb (k_st x) TEnded) (tasks s).
 
 (** ** Events *)
 Inductive event :=
@@ -500,21 +506,21 @@ Definition step (s : state) (e : event) : option state :=
          theorems): the final task of a transfer is submitted last, and when it is
          submitted every other task of the transfer is one of its dependencies,
          or is past its main, or sits before it in the single-worker IO queue,
-         or is the submission task / the submitter itself *)
+         or is the submission task; task ids grow with creation *)
       let no_final_yet := negb (existsb (fun x => (k_t x =? t) && k_final x) (tasks s)) in
       let final_ok :=
         if final then
           forallb (fun x =>
-            negb (k_t x =? t) || (k_kind x =? KSubmission) || (k_id x =? a)
+            negb (k_t x =? t) || (k_kind x =? KSubmission)
             || mem_z (k_id x) deps || past_main (k_st x)
             || (stage_eqb (k_stage x) SIO && stage_eqb g SIO)) (tasks s)
         else true in
       if fresh && who_ok && deps_ok && coord_ok && phase_ok && kind_stage_ok kind g && (0 <=? k)
-         && no_final_yet && final_ok
+         && no_final_yet && final_ok && forallb (fun x => k_id x <? k) (tasks s)
       then Some (set_tasks s (tasks s ++
              [mkTask k t g a final deps kind
                      (if stage_eqb g SInline then TQueued else TSubmitting)
-                     false false false 0 (-1) false false]))
+                     false false false 0 (-1) 0 false]))
       else None
 
   | EAcquire a k sem =>
@@ -543,9 +549,9 @@ Definition step (s : state) (e : event) : option state :=
 
   | EAssoc a k =>
       on_task s k (fun x =>
-        if (k_parent x =? a) && negb (k_assoc x) && negb (tst_eqb (k_st x) TSubmitting)
-           && negb (k_kind x =? KSubmission)
-        then Some (with_assoc x true) else None)
+        if (k_parent x =? a) && (k_assoc x =? 0) && negb (tst_eqb (k_st x) TSubmitting)
+           && negb (k_kind x =? KSubmission) && negb (stage_eqb (k_stage x) SInline)
+        then Some (with_assoc x 1) else None)
 
   | ETaskStart k =>
       match find_task k (tasks s) with
@@ -877,7 +883,7 @@ Definition step (s : state) (e : event) : option state :=
 
   | EDissoc k =>
       on_task s k (fun x =>
-        if tst_eqb (k_st x) TEnded && k_assoc x then Some (with_assoc x false) else None)
+        if tst_eqb (k_st x) TEnded && (k_assoc x =? 1) then Some (with_assoc x 2) else None)
 
   | ECount a t op =>
       if busy s a then None else
